@@ -174,6 +174,12 @@ func runCheck(p *Prog, prop, tier string, timeout, workers int, verbose bool) in
 	tmp, _ := os.MkdirTemp("", "govc-"+prop)
 	defer os.RemoveAll(tmp)
 	out.Obls = dischargeGroups(out.Obls, tmp, timeout, workers)
+	var extraNotes []string
+	if prop == "C13" {
+		cov, notes := p.mapRangeCoverage(prop, out.Obls)
+		out.Obls = append(out.Obls, cov...)
+		extraNotes = notes
+	}
 
 	known := loadKnownFindings()
 	base := loadBaseline()
@@ -225,6 +231,13 @@ func runCheck(p *Prog, prop, tier string, timeout, workers int, verbose bool) in
 		if o.WantSat {
 			// vacuity guard: precondition / invariant unsatisfiable
 			rp := writeReplay(prop, o, "vacuous: the assumptions at this point are unsatisfiable (contract or code makes the obligation set empty)")
+			fmt.Printf("VIOLATION property=%s replay=%s no-failing-input-found\n", prop, rp)
+			out.Violations = append(out.Violations, o.Name)
+			exit = 1
+			continue
+		}
+		if o.Kind == "order.covered" {
+			rp := writeReplay(prop, o, "a `for ... range` loop over a map has no order-independence obligation: its function carries no C13 contract and the loop is not declared order-free")
 			fmt.Printf("VIOLATION property=%s replay=%s no-failing-input-found\n", prop, rp)
 			out.Violations = append(out.Violations, o.Name)
 			exit = 1
@@ -309,6 +322,9 @@ func runCheck(p *Prog, prop, tier string, timeout, workers int, verbose bool) in
 		for _, n := range r.Notes {
 			assume[n] = true
 		}
+	}
+	for _, n := range extraNotes {
+		assume[n] = true
 	}
 	assume["go/ssa (x/tools v0.29.0) faithfully represents the compiled code; govc's encoding of SSA instructions; the SMT solvers"] = true
 	assume["machine integers are treated as mathematical integers (no overflow modelling)"] = true
